@@ -13,7 +13,7 @@ import itertools
 
 import numpy as np
 
-from ..core import AnalysisError, call_name, dotted, kwarg
+from ..core import AnalysisError, call_name, dotted, func_params, kwarg
 from .. import fdx, fold
 
 I2 = np.eye(2, dtype=complex)
@@ -292,3 +292,367 @@ def run(ctx):
         ctx.ob('C14.e', f'cirq.ops.pauli_string.MutablePauliString.{mn}', got == want,
                '' if got == want else f'{mn} passes sign {got:+d}, which the atom helper implements as {"left" if got == left_sign else "right"}-multiplication: '
                f'the {side}-multiply entry point multiplies on the other side', ps.rel, fn.lineno)
+
+    _extra_rules(ctx, repo, ps, dps, mps)
+
+
+# ---------------------------------------------------------------------------------------------------------------
+PAULI_STRING_CLASSES = {'PauliString', 'DensePauliString', 'MutableDensePauliString', 'MutablePauliString'}
+CONTENT_ATTRS = {'_qubit_pauli_map', 'pauli_int_dict', 'pauli_mask', '_pauli_mask', 'qubits', 'items', 'keys', 'values', 'get'}
+COEFF_ATTRS = {'coefficient', '_coefficient'}
+# (function qualname, constructed class) -> reason the coefficient is deliberately not passed at that site
+CONVERSION_EXEMPT = {
+    ('PauliString.__pow__', 'PauliString'): 'the coefficient becomes the rotation exponent of the PauliStringPhasor built around this string',
+    ('PauliString.__rpow__', 'PauliString'): 'same: base**(coefficient * P) - the coefficient is turned into the exponents',
+    ('PauliString.conjugated_by', 'PauliString'): 'the untouched remainder is multiplied by the conjugated factor, which carries the coefficient (remain * conjugated)',
+}
+
+
+def _sources(fn, in_family: bool):
+    """names bound to Pauli-string values inside fn: self (for family classes) and locals assigned from the interpretation helpers"""
+    src = {'self'} if in_family else set()
+    for n in ast.walk(fn):
+        tgt = val = None
+        if isinstance(n, ast.NamedExpr):
+            tgt, val = n.target, n.value
+        elif isinstance(n, ast.Assign) and len(n.targets) == 1:
+            tgt, val = n.targets[0], n.value
+        if isinstance(tgt, ast.Name) and isinstance(val, ast.Call) and call_name(val) in ('_try_interpret_as_pauli_string', '_try_interpret_as_dps'):
+            src.add(tgt.id)
+    return src
+
+
+def _reads(expr, names, attrs=None):
+    """source names whose content (attrs None: any attribute / subscript / bare use as iterable) is read inside expr"""
+    out = set()
+    for n in ast.walk(expr):
+        if isinstance(n, ast.Attribute) and isinstance(n.value, ast.Name) and n.value.id in names and (attrs is None or n.attr in attrs):
+            out.add(n.value.id)
+        if attrs is None or attrs is CONTENT_ATTRS:
+            if isinstance(n, ast.Subscript) and isinstance(n.value, ast.Name) and n.value.id in names:
+                out.add(n.value.id)
+    return out
+
+
+def _extra_rules(ctx, repo, ps, dps, mps):
+    from ..flow import stmts_in_order
+    from . import shared
+    ctx.decided += [
+        'C14.f in-place conjugation of a mutable string can shrink its support and updates its sign',
+        'C14.g LinearDict arithmetic (the carrier of PauliSum) never drops non-zero terms: clean() is called with atol=0',
+        'C14.h every method of a Pauli-string class that rebuilds its class passes the coefficient and every other stored field',
+        'C14.i conversions between Pauli-string representations carry the coefficient of the source',
+        'C14.j the X/Y/Z-power-gate shortcut of _try_interpret_as_pauli_string accounts for the gate\'s global_shift',
+        'C14.k PauliStringPhasorGate._decompose_ equals exp(i pi (t_neg P_- + t_pos P_+)) for every Pauli mask on up to 3 qubits (identity entries included)',
+    ]
+
+    # ---------------------------------------------------------------- C14.f
+    ctx.rule('C14.f', 'MutablePauliString.inplace_before: inside the loop over operations the entry of a qubit whose conjugated Pauli is the identity '
+             'is removed (pop / del / clear / rebuild of pauli_int_dict) and the coefficient is taken from the conjugated string', floor=3, style='MPT')
+    fn = mps.methods.get('inplace_before')
+    if fn is None:
+        raise AnalysisError('MutablePauliString.inplace_before vanished')
+    loops = [l for l in ast.walk(fn) if isinstance(l, ast.For) and any(isinstance(c, ast.Call) and call_name(c) == '_calc_conjugation' for c in ast.walk(l))]
+    if not loops:
+        raise AnalysisError('inplace_before: loop calling _calc_conjugation vanished')
+    loop = loops[0]
+    removes = False
+    coeff = False
+    for n in ast.walk(loop):
+        if isinstance(n, ast.Call) and isinstance(n.func, ast.Attribute) and n.func.attr in ('pop', 'clear') and ast.unparse(n.func.value) == 'self.pauli_int_dict':
+            removes = True
+        if isinstance(n, ast.Delete) and any('self.pauli_int_dict' in ast.unparse(t) for t in n.targets):
+            removes = True
+        if isinstance(n, ast.Assign) and any(ast.unparse(t) == 'self.pauli_int_dict' for t in n.targets):
+            removes = True
+        if isinstance(n, (ast.Assign, ast.AugAssign)):
+            tg = n.targets if isinstance(n, ast.Assign) else [n.target]
+            if any(ast.unparse(t) in ('self.coefficient', 'self._coefficient') for t in tg) and 'coefficient' in ast.unparse(n.value):
+                coeff = True
+    key = 'cirq.ops.pauli_string.MutablePauliString.inplace_before'
+    ctx.ob('C14.f', key + ':support-can-shrink', removes, '' if removes else 'no entry of pauli_int_dict is ever removed: a Pauli that conjugates to the identity on a qubit '
+           '(X(b) through SWAP(a,b)) stays behind', ps.rel, loop.lineno)
+    ctx.ob('C14.f', key + ':sign-updated', coeff, '' if coeff else 'the coefficient of the conjugated string is not written back: signs picked up in conjugation are lost', ps.rel, loop.lineno)
+    ia = mps.methods.get('inplace_after')
+    ok = ia is not None and any(isinstance(c, ast.Call) and call_name(c) == 'inplace_before' and c.args and isinstance(c.args[0], ast.Call) and call_name(c.args[0]) == 'inverse'
+                                for c in ast.walk(ia))
+    ctx.ob('C14.f', 'cirq.ops.pauli_string.MutablePauliString.inplace_after', ok, '' if ok else 'inplace_after is no longer inplace_before of the inverse operations', ps.rel, getattr(ia, 'lineno', 1))
+
+    # ---------------------------------------------------------------- C14.g
+    ctx.rule('C14.g', 'LinearDict: every clean() issued by an arithmetic operator or a view keeps all non-zero terms (atol=0); only the public clean() has a tolerance', floor=8, style='TBL')
+    ld = repo.cls('cirq.value.linear_dict.LinearDict')
+    for mn, m in ld.methods.items():
+        if mn == 'clean':
+            continue
+        for c in ast.walk(m):
+            if isinstance(c, ast.Call) and isinstance(c.func, ast.Attribute) and c.func.attr == 'clean':
+                a = kwarg(c, 'atol')
+                ok = a is not None and isinstance(a, ast.Constant) and a.value == 0
+                ctx.ob('C14.g', f'{ld.qual}.{mn}:clean', ok, '' if ok else f'{mn} cleans with the default tolerance: terms with |coefficient| <= 1e-9 silently vanish from sums', ld.mod.rel, c.lineno)
+
+    # ---------------------------------------------------------------- C14.h
+    fam = {'cirq.ops.pauli_string.PauliString', 'cirq.ops.pauli_string.MutablePauliString', 'cirq.ops.pauli_string.SingleQubitPauliStringGateOperation',
+           'cirq.ops.dense_pauli_string.BaseDensePauliString', 'cirq.ops.dense_pauli_string.DensePauliString', 'cirq.ops.dense_pauli_string.MutableDensePauliString',
+           'cirq.ops.linear_combinations.PauliSum', 'cirq.ops.pauli_string_phasor.PauliStringPhasor', 'cirq.ops.pauli_string_phasor.PauliStringPhasorGate',
+           'cirq.ops.pauli_sum_exponential.PauliSumExponential'}
+    shared.exempt('cirq.ops.pauli_string_phasor.PauliStringPhasor', 'conjugated_by', 'qubits',
+                  'explicit identity-padding qubits are not carried through conjugation; the new Pauli string defines the qubits')
+    shared.rebuild_rule(ctx, 'C14.h', floor=22, classes=fam)
+
+    # ---------------------------------------------------------------- C14.i
+    ctx.rule('C14.i', 'a Pauli-string object constructed from the Pauli content of another Pauli-string value (self or the result of an interpretation helper) '
+             'is given that value\'s coefficient', floor=22, style='COH')
+    fam_names = {q.rsplit('.', 1)[1] for q in fam}
+    for mod in (ps, dps):
+        for owner, fn in _functions(mod):
+            in_family = owner in fam_names
+            srcs = _sources(fn, in_family)
+            if not srcs:
+                continue
+            # names derived from the content of a source
+            derived = {}
+            changed = True
+            order = stmts_in_order(fn)
+            while changed:
+                changed = False
+                for st in order:
+                    tgts, val = [], None
+                    if isinstance(st, ast.Assign):
+                        tgts, val = st.targets, st.value
+                    elif isinstance(st, ast.AnnAssign) and st.value is not None:
+                        tgts, val = [st.target], st.value
+                    elif isinstance(st, ast.AugAssign):
+                        tgts, val = [st.target], st.value
+                    elif isinstance(st, ast.For):
+                        tgts, val = [st.target], st.iter
+                    if val is None:
+                        continue
+                    who = _reads(val, srcs, CONTENT_ATTRS) | {s for n in ast.walk(val) if isinstance(n, ast.Name) and n.id in derived for s in derived[n.id]}
+                    if not who:
+                        continue
+                    for t in tgts:
+                        for nm in ast.walk(t):
+                            if isinstance(nm, ast.Name) and nm.id not in srcs:
+                                if not who <= derived.get(nm.id, set()):
+                                    derived.setdefault(nm.id, set()).update(who)
+                                    changed = True
+            for c in ast.walk(fn):
+                if not isinstance(c, ast.Call):
+                    continue
+                cname = ast.unparse(c.func).split('.')[-1]
+                if cname not in PAULI_STRING_CLASSES:
+                    continue
+                argexprs = list(c.args) + [k.value for k in c.keywords if k.arg != 'coefficient']
+                who = set()
+                for a in argexprs:
+                    who |= _reads(a, srcs, CONTENT_ATTRS)
+                    who |= {s for n in ast.walk(a) if isinstance(n, ast.Name) and n.id in derived for s in derived[n.id]}
+                if not who:
+                    continue
+                qual = f'{owner}.{fn.name}' if owner else fn.name
+                key = f'{mod.name}.{qual}->{cname}'
+                if (qual, cname) in CONVERSION_EXEMPT:
+                    ctx.ob('C14.i', key, True, 'listed: ' + CONVERSION_EXEMPT[(qual, cname)], mod.rel, c.lineno)
+                    continue
+                cexpr = kwarg(c, 'coefficient')
+                ok = False
+                if cexpr is not None:
+                    params = set(func_params(fn))
+                    coeff_locals = set()
+                    for st in order:
+                        if isinstance(st, (ast.Assign, ast.AnnAssign)) and getattr(st, 'value', None) is not None and _reads(st.value, srcs, COEFF_ATTRS):
+                            for t in (st.targets if isinstance(st, ast.Assign) else [st.target]):
+                                coeff_locals |= {n.id for n in ast.walk(t) if isinstance(n, ast.Name)}
+                    names = {n.id for n in ast.walk(cexpr) if isinstance(n, ast.Name)}
+                    # the source's own coefficient, a local computed from it, or an explicit override handed in by the caller
+                    ok = bool(who <= _reads(cexpr, srcs, COEFF_ATTRS)) or bool(names & coeff_locals) or bool(names & (params - {'self'}))
+                ctx.ob('C14.i', key, ok, '' if ok else f'{qual} builds a {cname} from the Paulis of `{", ".join(sorted(who))}` without its coefficient: '
+                       'the scalar factor of the operand is silently replaced by 1', mod.rel, c.lineno)
+
+    # ---------------------------------------------------------------- C14.j
+    ctx.rule('C14.j', '_try_interpret_as_pauli_string: the shortcut that maps an X/Y/Z power gate to a Pauli (interpreted for probe exponents and global shifts) '
+             'returns c*I or c*P with c = exp(i pi exponent global_shift) for integer exponents and declines otherwise', floor=20, style='FDX')
+    fn = ps.defs.get('_try_interpret_as_pauli_string')
+    if fn is None:
+        raise AnalysisError('_try_interpret_as_pauli_string vanished')
+    branch = None
+    for st in fn.body:
+        if isinstance(st, ast.If) and 'type(op.gate)' in ast.unparse(st.test):
+            branch = st
+    if branch is None:
+        raise AnalysisError('_try_interpret_as_pauli_string: the power-gate shortcut vanished')
+
+    class _PS:
+        def __init__(self, what, c=1):
+            self.what, self.c = what, c
+
+        def __mul__(self, k):
+            return _PS(self.what, self.c * k)
+        __rmul__ = __mul__
+
+    def call_hook(call, it):
+        nm = ast.unparse(call.func).split('.')[-1]
+        if nm == 'PauliString':
+            if call.args or any(k.arg != 'coefficient' for k in call.keywords):
+                raise fdx.Unsupported('PauliString built with contents in the shortcut')
+            c = [it.ev(k.value) for k in call.keywords if k.arg == 'coefficient']
+            return _PS('I', c[0] if c else 1)
+        return NotImplemented
+    for e in (0, 1, 2, 3, -1, -2, 0.5, 1.5):
+        for sh in (0, 0.5, -0.25, 0.3):
+            env = {'op': {'gate': {'exponent': e, 'global_shift': sh, '_exponent': e, '_global_shift': sh}, 'qubits': ('q0',)},
+                   'pauli': {'on': lambda *q: _PS('P', 1)}}
+            it = fdx.NumInterp(env, call_hook=call_hook)
+            key = f'cirq.ops.pauli_string._try_interpret_as_pauli_string:shortcut:e={e}:shift={sh}'
+            try:
+                got = NotImplemented
+                try:
+                    it.run_block(branch.body)
+                except fdx._Return as r:
+                    got = r.value
+            except fdx.Unsupported as ex:
+                raise AnalysisError(f'_try_interpret_as_pauli_string shortcut is outside the interpretable subset: {ex}')
+            if e % 1 != 0:
+                ok = got is None or got is NotImplemented
+                msg = 'a non-integer power of a Pauli gate is interpreted as a Pauli string'
+            else:
+                want = np.exp(1j * np.pi * e * sh)
+                ok = isinstance(got, _PS) and got.what == ('I' if e % 2 == 0 else 'P') and abs(complex(got.c) - want) < 1e-9
+                msg = (f'the gate is the matrix {want:.3g} * {"I" if e % 2 == 0 else "P"} but is interpreted as '
+                       f'{(str(complex(got.c)) + " * " + got.what) if isinstance(got, _PS) else got}: products with Pauli strings get the wrong phase')
+            ctx.ob('C14.j', key, ok, '' if ok else msg, ps.rel, branch.lineno, construct='cirq.ops.pauli_string._try_interpret_as_pauli_string:shortcut')
+
+    _phasor_rule(ctx, repo)
+
+
+def _functions(mod):
+    for st in mod.tree.body:
+        if isinstance(st, ast.FunctionDef):
+            yield '', st
+        elif isinstance(st, ast.ClassDef):
+            for s2 in st.body:
+                if isinstance(s2, ast.FunctionDef):
+                    yield st.name, s2
+
+
+class _DPS:
+    """model of a DensePauliString value: only what the decomposition may look at (length, mask, per-position gate names)"""
+
+    def __init__(self, names):
+        self.names = names
+        enc = {'I': 0, 'X': 1, 'Y': 3, 'Z': 2}
+        self.pauli_mask = np.array([enc[c] for c in names], dtype=np.uint8)
+        self.coefficient = 1
+
+    def __len__(self):
+        return len(self.names)
+
+    def __iter__(self):
+        return iter(self.names)
+
+
+def _phasor_rule(ctx, repo):
+    """C14.k - interpret PauliStringPhasorGate._decompose_ for every Pauli mask on <= 3 qubits."""
+    from . import decomp
+    from .c19 import _embed
+    ctx.rule('C14.k', 'PauliStringPhasorGate._decompose_ (interpreted; the basis change to Z is summarised as any unitary U_P with U_P P U_P^dag = Z, inverse() as the '
+             'reversed adjoint sequence) multiplies out to exp(i pi (t_neg (I-P)/2 + t_pos (I+P)/2)) for every mask in {I,X,Y,Z}^n, n<=3, at probe exponents', floor=110, style='FDX')
+    ci = repo.cls('cirq.ops.pauli_string_phasor.PauliStringPhasorGate')
+    fn = ci.methods.get('_decompose_')
+    if fn is None:
+        raise AnalysisError('PauliStringPhasorGate._decompose_ vanished')
+    mod = ci.mod
+    H = np.array([[1, 1], [1, -1]], dtype=complex) / np.sqrt(2)
+    S = np.diag([1, 1j]).astype(complex)
+    TO_Z = {'X': H, 'Y': H @ np.conj(S).T, 'Z': None}      # U P U^dag = Z
+    for nm, u in TO_Z.items():
+        if u is not None:
+            assert np.allclose(u @ MATS[nm] @ np.conj(u).T, PZ)
+    comps = {}
+    bad_total = 0
+    for n in (1, 2, 3):
+        for names in itertools.product('IXYZ', repeat=n):
+            if all(c == 'I' for c in names):
+                continue
+            for tneg, tpos in ((0.3, 0.0), (0.0, 0.7), (0.25, -0.4)) if n < 3 else ((0.3, 0.1),):
+                self_obj = {'dense_pauli_string': _DPS(names), '_dense_pauli_string': _DPS(names), 'exponent_neg': tneg, 'exponent_pos': tpos,
+                            '_exponent_neg': tneg, '_exponent_pos': tpos}
+                attr_hook, base_call_hook, name_lookup = decomp.make_env_hooks(repo, ci, fn, self_obj)
+
+                def call_hook(call, it, _b=base_call_hook, _names=names):
+                    s = ast.unparse(call.func)
+                    if s == 'self._to_z_basis_ops':
+                        qs = it.ev(call.args[0])
+                        return [decomp.OpV(decomp.GateV(None, kind='matrix', coefficient=TO_Z[c], n=1), [q]) for q, c in zip(qs, _names) if c in 'XY']
+                    if s.endswith('freeze_op_tree'):
+                        v = it.ev(call.args[0])
+                        return tuple(v) if isinstance(v, (list, tuple)) else v
+                    if s.endswith('inverse') and len(call.args) == 1:
+                        flat = []
+                        decomp._flatten(it.ev(call.args[0]), flat)
+                        return [o ** -1 for o in reversed(flat)]
+                    if s.endswith('xor_nonlocal_decompose'):
+                        f2 = mod.defs.get('xor_nonlocal_decompose')
+                        if f2 is None:
+                            raise fdx.Unsupported('xor_nonlocal_decompose vanished')
+                        sub = decomp.GenInterp({a.arg: it.ev(v) for a, v in zip(f2.args.args, call.args)}, call_hook=_b, attr_hook=it.attr_hook)
+                        sub.ev = it.ev.__func__.__get__(sub) if hasattr(it.ev, '__func__') else sub.ev
+                        _wire(sub, name_lookup, attr_hook)
+                        sub.call(f2)
+                        return sub.out
+                    return _b(call, it)
+                it = decomp.GenInterp({'self': self_obj, 'qubits': tuple(decomp.Q(i) for i in range(n))}, call_hook=call_hook, attr_hook=attr_hook)
+                _wire(it, name_lookup, attr_hook)
+                key = f'{ci.qual}._decompose_:mask={"".join(names)}:t=({tneg},{tpos})'
+                try:
+                    ret = it.call(fn)
+                    tree = it.out if it.out else ret
+                    ops_ = []
+                    decomp._flatten(tree, ops_)
+                    u = np.eye(2 ** n, dtype=complex)
+                    for op in ops_:
+                        m = decomp.gate_matrix(repo, comps, op.gate)
+                        if op.gate.kind == 'phase':
+                            u = m[0, 0] * u
+                            continue
+                        u = _embed(m, [q.idx for q in op.qubits], n) @ u
+                except fdx.Unsupported as e:
+                    raise AnalysisError(f'PauliStringPhasorGate._decompose_ is outside the interpretable subset: {e}')
+                P = np.eye(1, dtype=complex)
+                for c in names:
+                    P = np.kron(P, MATS[c])
+                I_ = np.eye(2 ** n, dtype=complex)
+                ref = np.exp(1j * np.pi * tneg) * (I_ - P) / 2 + np.exp(1j * np.pi * tpos) * (I_ + P) / 2
+                ok = np.allclose(u, ref, atol=1e-9)
+                if not ok:
+                    bad_total += 1
+                ctx.ob('C14.k', key, ok, '' if ok else f'the {len(ops_)} yielded operations do not multiply out to the phasor of {"".join(names)}'
+                       + (' (identity positions take part in the parity computation)' if 'I' in names else ''), mod.rel, fn.lineno,
+                       construct=f'{ci.qual}._decompose_:mask={"".join(names)}')
+
+
+def _wire(it, name_lookup, attr_hook):
+    """library names resolve to gate values; attributes of model objects fall back to getattr"""
+    from . import decomp
+    orig_ev = it.ev
+
+    def ev(node):
+        if isinstance(node, ast.Name) and node.id not in it.env and node.id not in it.builtins:
+            g = name_lookup(node.id)
+            if g is not NotImplemented:
+                return g
+        return orig_ev(node)
+    it.ev = ev
+
+    def attr2(node, itp):
+        r = attr_hook(node, itp)
+        if r is not NotImplemented:
+            return r
+        try:
+            v = itp.ev(node.value)
+        except fdx.Unsupported:
+            return NotImplemented
+        if isinstance(v, (decomp.GateV, decomp.OpV, decomp.Q, _DPS)) and hasattr(v, node.attr):
+            return getattr(v, node.attr)
+        return NotImplemented
+    it.attr_hook = attr2
